@@ -49,7 +49,7 @@ class Hub:
                 return
             i = self.ntx
             self.ntx += 1
-            bad = i in self.corrupt
+            bad = i in self.corrupt and data.startswith(b"N")    # un-numbered priority commands carry no checksum: not corrupted here
             self.events.append({"k": "tx", "text": list(data), "bad": bad, "i": i})
             if self.mode == "firmware":
                 for r in self._firmware(data, bad):
@@ -59,6 +59,8 @@ class Hub:
     def _firmware(self, data, bad):
         """Marlin-style: convenience only, re-derived by SenderTrace.tla."""
         txt = data.decode("ascii", "replace").rstrip("\n")
+        if not bad and not txt.startswith("N"):
+            return [OK]                       # an un-numbered (priority) command: executed, line counter untouched
         good, n, cmd = False, None, ""
         try:
             if not bad and txt.startswith("N") and "*" in txt:
@@ -186,7 +188,7 @@ def strip_job_line(raw):
     return code.strip()
 
 
-def run_job(lines, corrupt=(), holds=None, deadline=20.0):
+def run_job(lines, corrupt=(), holds=None, deadline=20.0, pauses=()):
     """Stream `lines` with the real printcore. Returns the trace."""
     from gscrib.printrun import gcoder
     from gscrib.printrun.printcore import printcore
@@ -215,9 +217,26 @@ def run_job(lines, corrupt=(), holds=None, deadline=20.0):
                 raise RuntimeError("startprint refused")
             t0 = time.monotonic()
             idle_since = None
+            pending = sorted(pauses)
             while time.monotonic() - t0 < deadline:
                 moved = hub.pump()
-                done = (not p.printing) and p.print_thread is None
+                if pending and hub.ntx >= pending[0] and p.printing:
+                    # pause() from another thread, let the link drain, resume()
+                    pending.pop(0)
+                    if p.pause() is not False:
+                        hub.log({"k": "pause"})
+                        t1 = time.monotonic()
+                        while time.monotonic() - t1 < 2.0:
+                            hub.pump()
+                            with hub.lock:
+                                if not hub.owed and not hub.released:
+                                    break
+                            time.sleep(0.001)
+                        time.sleep(0.02)
+                        hub.log({"k": "resume"})
+                        p.resume()
+                    continue
+                done = (not p.printing) and p.print_thread is None and not p.paused
                 with hub.lock:
                     quiet = not hub.owed and not hub.released
                 if done and quiet:
@@ -238,13 +257,13 @@ def run_job(lines, corrupt=(), holds=None, deadline=20.0):
                 p.disconnect()
             except Exception:
                 pass
-    ev = [e for e in hub.events if e["k"] in ("tx", "rel", "end")]
+    ev = [e for e in hub.events if e["k"] in ("tx", "rel", "end", "pause", "resume")]
     for e in ev:
         e.setdefault("text", [])
         e.setdefault("bad", False)
         e.setdefault("joined", False)
         e.pop("i", None)
-    return {"meta": {"corrupt": sorted(corrupt), "holds": {str(k): v for k, v in (holds or {}).items()}},
+    return {"meta": {"corrupt": sorted(corrupt), "holds": {str(k): v for k, v in (holds or {}).items()}, "pauses": sorted(pauses)},
             "job": [list(x.encode("ascii")) for x in job], "raw": lines, "ev": ev}
 
 
